@@ -277,7 +277,7 @@ def run(ctx):
                     jobs.append((ctx.repo, gname, sig, osig, hi, mode))
             jobs.append((ctx.repo, gname, sig, osig, 0, "off"))
     by = {}
-    for job, r in zip(jobs, ctx.pmap(ga_worker, jobs)):
+    for job, r in ctx.pairs(ga_worker, jobs):
         cfg = r["cfg"]
         ev.obligation("groupaverage", not r["problems"], tuple(str(v) for v in cfg.values()) if cfg["order"] > 1 else None, sample=cfg if ev.obligations % 19 == 0 else None)
         for kind, what, site in r["problems"]:
@@ -300,14 +300,14 @@ def run(ctx):
                             if cst:
                                 cj.append((ctx.repo, "signature", order, chans, past, cst, lons, lats))
                                 cj.append((ctx.repo, "lonflip", order, chans, past, cst, lons, lats))
-    for job, r in zip(cj, ctx.pmap(climate_worker, cj)):
+    for job, r in ctx.pairs(climate_worker, cj):
         cfg = r["cfg"]
         ev.obligation("climate", not r["problems"], tuple(str(v) for v in cfg.values()) if len(cfg["order"]) > 1 else None, sample=cfg if ev.obligations % 43 == 0 else None)
         q = {"roundtrip": "Climate1D.to1d", "signature": "Climate1D.get_1d_signature", "lonflip": "Climate1D.to1d", "equator": "Climate1D.__call__"}[cfg["check"]]
         for kind, what, site in r["problems"]:
             by.setdefault((q, kind), []).append((what, site, cfg))
     mj = [(ctx.repo, D, order, 0) for D in (2, 3) for order in ([(0, 0)], [(1, 0), (0, 0)], [(2, 0), (0, 1), (1, 1)])]
-    for job, r in zip(mj, ctx.pmap(mw_worker, mj)):
+    for job, r in ctx.pairs(mw_worker, mj):
         cfg = r["cfg"]
         ev.obligation("modelwrapper", not r["problems"], tuple(str(v) for v in cfg.values()), sample=None)
         for kind, what, site in r["problems"]:
